@@ -58,6 +58,8 @@ def gen(rng, idx, tier, seed):
     if idx >= NF[tier]:
         s = refarl.gen_spec(rng)
         s['mode'] = 'file'
+        s['decoy_seed'] = int(rng.integers(1 << 30)) if rng.random() < 0.4 \
+            else None
         return s
     kind = ['random', 'smooth', 'adversarial', 'adversarial', 'constant',
             'steps'][idx % 6]
@@ -295,6 +297,26 @@ def run_file(spec, res):
                      nx=spec['nx'], ny=spec['ny'], lenh=lenh,
                      excmsg=str(e)[:200])
             return
+        if spec['nx'] > 999 or spec['ny'] > 999:
+            res.facet('large-grid')
+        if spec.get('decoy_seed') is not None:
+            # a second ARL file with another level layout is opened before
+            # the variables of the first are read: open files are independent
+            try:
+                ds = refarl.gen_spec(np.random.default_rng(
+                    [spec['decoy_seed'], 9]))
+                ds['nx'], ds['ny'] = 22, 18
+                ds['levels'] = [1.0, 0.5]
+                ds['layextra'] = None
+                dimg, _ = refarl.encode(ds)
+                dpath = os.path.join(d, 'decoy.arl')
+                with open(dpath, 'wb') as fh:
+                    fh.write(dimg)
+                g = A.arlpackedbit(dpath)
+                list(g.variables.keys())
+                res.facet('decoy-open')
+            except Exception:
+                res.note('decoy-open-failed')
         keys = list(f.variables.keys())
         ratios, headrooms = [], []
         allkeys = spec['sfckeys'] + spec['laykeys'] + (
